@@ -424,9 +424,18 @@ def work(ctx, tier):
             for nm_ in ("PlainError", "AuthError", "TimeoutThing", "ForbiddenError"):
                 if hash((v, attr, nm_)) % ctx.nshards != ctx.shard:
                     continue
-                e = type(nm_, (Exception,), {})("x")
-                setattr(e, attr, v)
-                case = {"type": nm_, "attrs": {attr: repr(v)}, "systematic": True}
+                # where the attribute lives rotates: on the instance, on the class (`class NotFound(ApiError): status_code = 404`), or
+                # behind a read-only property forwarding to a response object
+                how = ("instance", "class", "property")[hash((v, attr, nm_, "how")) % 3]
+                if how == "instance":
+                    e = type(nm_, (Exception,), {})("x")
+                    setattr(e, attr, v)
+                elif how == "class":
+                    e = type(nm_, (Exception,), {attr: v})("x")
+                else:
+                    e = type(nm_, (Exception,), {attr: property(lambda self, _v=v: _v)})("x")
+                ctx.cnt["systematic:attribute-on-" + how] += 1
+                case = {"type": nm_, "attrs": {attr: repr(v)}, "attribute_lives_on": how, "systematic": True}
                 rd, rs, rh = total(default_classifier, e, case), total(strict_classifier, e, case), total(http_classifier, e, case)
                 ctx.cnt["systematic_table_cases"] += 1
                 if v in TABLE:
